@@ -15,7 +15,9 @@ from mc import engine
 from checks import common as c
 from checks import reqgen as rg
 
-NETS = ['P3', 'TRI', 'P3_lowpmax', 'P3_CL']
+NETS = ['P3', 'TRI', 'P3_lowpmax', 'P3_CL', 'SQ']
+# SQ: square A-B-C-D with the diagonal B-D; requests between the same transceivers that differ only in their include lists
+SQ_NAMES = ['light', 'via_bd', 'via_db', 'via_b_loose', 'via_b', 'bidir', 'blocked']
 SIMS = {'default': {}, 'ggn3': {'nli_params': {'method': 'ggn_spectrally_separated', 'computed_number_of_channels': 3},
                                  'raman_params': {'flag': False}}}
 SPECTRUM_REASONS = {'NO_SPECTRUM', 'NOT_ENOUGH_RESERVED_SPECTRUM'}
@@ -44,6 +46,10 @@ def topology(net):
         bands = [{'f_min': 191.3e12, 'f_max': 196.1e12, 'spacing': 50e9}, {'f_min': 186.6e12, 'f_max': 190.0e12, 'spacing': 50e9}]
         rp = {s: {'params': {'design_bands': bands}} for s in 'ABC'}
         return c.build_topology(['A', 'B', 'C'], [('A', 'B', span(80), span(80)), ('B', 'C', span(70), span(70))], roadm_params=rp)
+    if net == 'SQ':
+        return c.build_topology(['A', 'B', 'C', 'D'], [('A', 'B', span(60), span(60)), ('B', 'C', span(70), span(70)),
+                                                       ('C', 'D', span(50), span(50)), ('D', 'A', span(65), span(65)),
+                                                       ('B', 'D', span(40), span(40))])
     if net in ('P3', 'P3_lowpmax'):
         return c.build_topology(['A', 'B', 'C'], [('A', 'B', span(80), span(80)), ('B', 'C', span(100), span(100))])
     return c.build_topology(['A', 'B', 'C'], [('A', 'B', span(80), span(80)), ('B', 'C', span(60), span(60)),
@@ -67,6 +73,16 @@ def menu():
                                   bidir=True, power=hot),
         'blocked': rg.request('blocked', 'trx A', 'trx B', trx_type='Voyager', mode='mode 1', spacing=50e9,
                               include=[('roadm C', 'STRICT'), ('roadm A', 'STRICT')]),
+        # only on SQ: the same end points and the same include nodes in the two possible orders (both routable), a LOOSE and a
+        # STRICT list with one node
+        'via_bd': rg.request('via_bd', 'trx A', 'trx C', trx_type='Voyager', mode='mode 1', spacing=50e9,
+                             include=[('roadm B', 'STRICT'), ('roadm D', 'STRICT')]),
+        'via_db': rg.request('via_db', 'trx A', 'trx C', trx_type='Voyager', mode='mode 1', spacing=50e9,
+                             include=[('roadm D', 'STRICT'), ('roadm B', 'STRICT')]),
+        'via_b_loose': rg.request('via_b_loose', 'trx A', 'trx C', trx_type='Voyager', mode='mode 1', spacing=50e9,
+                                  include=[('roadm B', 'LOOSE')]),
+        'via_b': rg.request('via_b', 'trx A', 'trx C', trx_type='Voyager', mode='mode 1', spacing=50e9,
+                            include=[('roadm B', 'STRICT')]),
         'nomode': rg.request('nomode', 'trx B', 'trx A', trx_type='T_hard', mode=None, spacing=75e9),
         'nospacing': rg.request('nospacing', 'trx C', 'trx B', trx_type='Voyager', mode=None, spacing=30e9),
     }
@@ -255,14 +271,19 @@ def run_api(case):
 
 
 def main(rep, tier, seed):
-    names = list(menu())
+    all_names = [n for n in menu() if not n.startswith('via_')]
     cases = []
     for net in NETS:
+        names = all_names if net != 'SQ' else SQ_NAMES
         batches = [list(p) for k in (1, 2) for p in itertools.permutations(names, k)]
         triples = list(itertools.permutations(names, 3))
-        if tier == 'quick':
+        if tier == 'quick' and net != 'SQ':
             triples = [t for i, t in enumerate(triples) if (i + seed) % 6 == 0]
         batches += [list(t) for t in triples]
+        if net == 'SQ':
+            for b in batches:
+                cases.append(dict(kind='batch', net=net, batches=[b]))
+            continue
         if tier == 'thorough':
             quads = list(itertools.permutations(names, 4))
             batches += [list(q) for i, q in enumerate(quads) if i % 20 == seed % 20]
@@ -288,10 +309,10 @@ def main(rep, tier, seed):
                 cases.append(dict(kind='api', net=net, pairs=[list(x) for x in p]))
     results, stats = engine.run_pool('checks.c16', cases, horizon=900, chunksize=8)
     rep.absorb(results)
-    rep.cov['bound'] = (f'{len(NETS)} networks x every ordered batch of 1-2 requests from a menu of {len(names)} + '
+    rep.cov['bound'] = (f'{len(NETS) - 1} networks x every ordered batch of 1-2 requests from a menu of {len(all_names)} + '
                         f'{"all" if tier == "thorough" else "1/6 of the"} ordered triples (+ sampled quadruples in the thorough tier) + '
                         '16 two-batch histories on one network object + API-built request batches of 2-3; networks include a two-band (C+L) '
-                        'line system; on P3 every ordered pair and history also under ggn_spectrally_separated with 3 computed channels')
+                        'line system; + a 4-site mesh with every ordered batch of 1-3 out of 7 requests of which 5 share their end points and differ in the include list (same nodes in both orders, LOOSE / STRICT); on P3 every ordered pair and history also under ggn_spectrally_separated with 3 computed channels')
     rep.cov['space_size'] = len(cases)
     rep.cov['exhaustive'] = not stats['budget_hit'] and len(results) == len(cases)
     rep.cov['rule'] = ('a case = one batch (or two successive batches) through the real planning() on a freshly designed network; '
